@@ -21,6 +21,7 @@ Qed.
 Section Proofs.
   Variables B S V D H T W E : Type.
   Variable kind_of : B -> kind.
+  Variable fees_present : B -> bool.
   Variable expected_calldata : B -> Z -> Z -> V -> list S -> D.
   Variable expected_deploy : B -> D.
   Variable D_eqb : D -> D -> bool.
@@ -39,21 +40,21 @@ Section Proofs.
   Notation state := (state B S V H T W).
   Notation effect := (effect B S V T).
   Notation op := (op B S T W E).
-  Notation verify := (verify B S V D T kind_of expected_calldata expected_deploy D_eqb).
+  Notation verify := (verify B S V D T kind_of fees_present expected_calldata expected_deploy D_eqb).
   Notation match_prefix := (match_prefix S D D_eqb).
-  Notation attest_msg := (attest_msg B S V D H T W E kind_of expected_calldata expected_deploy D_eqb H_eqb
+  Notation attest_msg := (attest_msg B S V D H T W E kind_of fees_present expected_calldata expected_deploy D_eqb H_eqb
                             tx_hash tx_data valset_at compass_present apply_effect on_error_proof).
-  Notation attest := (attest B S V D H T W E kind_of expected_calldata expected_deploy D_eqb H_eqb
+  Notation attest := (attest B S V D H T W E kind_of fees_present expected_calldata expected_deploy D_eqb H_eqb
                         tx_hash tx_data valset_at compass_present apply_effect on_error_proof).
-  Notation step := (step B S V D H T W E kind_of expected_calldata expected_deploy D_eqb H_eqb
+  Notation step := (step B S V D H T W E kind_of fees_present expected_calldata expected_deploy D_eqb H_eqb
                       tx_hash tx_data valset_at compass_present apply_effect on_error_proof).
-  Notation run_from := (run_from B S V D H T W E kind_of expected_calldata expected_deploy D_eqb H_eqb
+  Notation run_from := (run_from B S V D H T W E kind_of fees_present expected_calldata expected_deploy D_eqb H_eqb
                           tx_hash tx_data valset_at compass_present apply_effect on_error_proof).
-  Notation run := (run B S V D H T W E kind_of expected_calldata expected_deploy D_eqb H_eqb
+  Notation run := (run B S V D H T W E kind_of fees_present expected_calldata expected_deploy D_eqb H_eqb
                      tx_hash tx_data valset_at compass_present apply_effect on_error_proof).
-  Notation endblock_ids := (endblock_ids B S V D H T W E kind_of expected_calldata expected_deploy D_eqb H_eqb
+  Notation endblock_ids := (endblock_ids B S V D H T W E kind_of fees_present expected_calldata expected_deploy D_eqb H_eqb
                               tx_hash tx_data valset_at compass_present apply_effect on_error_proof).
-  Notation endblock := (endblock B S V D H T W E kind_of expected_calldata expected_deploy D_eqb H_eqb
+  Notation endblock := (endblock B S V D H T W E kind_of fees_present expected_calldata expected_deploy D_eqb H_eqb
                           tx_hash tx_data valset_at compass_present apply_effect on_error_proof).
   Notation mem_hash := (mem_hash H H_eqb).
   Notation find_msg := (find_msg B S T).
@@ -94,10 +95,18 @@ Section Proofs.
     destruct (kind_of (m_body _ _ _ m)).
     - destruct (D_eqb d (expected_deploy (m_body _ _ _ m))) eqn:Eq; [|discriminate].
       intros Hs; inversion Hs; split; [reflexivity | now apply D_eqb_true].
+    - destruct (fees_present (m_body _ _ _ m)); [apply match_prefix_sound | discriminate].
     - apply match_prefix_sound.
+    - destruct (fees_present (m_body _ _ _ m)); [apply match_prefix_sound | discriminate].
     - apply match_prefix_sound.
-    - apply match_prefix_sound.
-    - apply match_prefix_sound.
+  Qed.
+
+  (** a message whose fees were never set matches no transaction *)
+  Lemma no_fees_never_verified : forall m vs d,
+    (kind_of (m_body _ _ _ m) = KSubmitLogicCall \/ kind_of (m_body _ _ _ m) = KUploadUser) ->
+    fees_present (m_body _ _ _ m) = false -> verify m vs d = None.
+  Proof.
+    intros m vs d Hk Hf. unfold Attest.verify. rewrite Hf. destruct Hk as [Hk|Hk]; now rewrite Hk.
   Qed.
 
   (** no signatures, no compass call is ever accepted *)
@@ -105,7 +114,8 @@ Section Proofs.
     kind_of (m_body _ _ _ m) <> KUploadCompass -> m_sigs _ _ _ m = [] -> verify m vs d = None.
   Proof.
     intros m vs d Hk Hs. unfold Attest.verify. rewrite Hs.
-    destruct (kind_of (m_body _ _ _ m)); try reflexivity. now elim Hk.
+    destruct (kind_of (m_body _ _ _ m)); try reflexivity; try (now elim Hk);
+      now destruct (fees_present (m_body _ _ _ m)).
   Qed.
 
   (* ---------- queue helpers ---------- *)
@@ -448,19 +458,13 @@ Section Proofs.
     destruct (attest_msg_spec s m env Hinv Hm) as [_ [_ Hrej]]. exact (Hrej t rc Hw).
   Qed.
 
-  (** The consensus end-blocker loop is a run of single attestations (so every theorem about
-      histories covers it). *)
+  (** The consensus end-blocker loop is exactly the run of the single attestations of the
+      messages it read at its start, in order (so every theorem about histories covers it). *)
   Theorem endblock_is_a_run_of_attests : forall l s env,
-    exists l', fst (endblock_ids s l env) = run_from s (map (fun i => OpAttest _ _ _ _ _ i (env i)) l').
+    endblock_ids s l env = run_from s (map (fun i => OpAttest _ _ _ _ _ i (env i)) l).
   Proof.
-    induction l as [|id r IH]; intros s env.
-    - now exists [].
-    - assert (Hs : fst (attest s id (env id)) = step s (OpAttest _ _ _ _ _ id (env id))) by reflexivity.
-      cbn [Attest.endblock_ids]. destruct (attest s id (env id)) as [s' res]. cbn [fst] in Hs.
-      destruct res;
-        try (exists [id]; cbn [map fst]; unfold Attest.run_from; cbn [fold_left]; exact Hs);
-        destruct (IH s' env) as [l' Hl']; exists (id :: l'); cbn [map]; unfold Attest.run_from in *;
-        cbn [fold_left]; rewrite <- Hs; exact Hl'.
+    induction l as [|id r IH]; intros s env; [reflexivity|].
+    cbn [Attest.endblock_ids map]. unfold Attest.run_from in *. cbn [fold_left]. apply IH.
   Qed.
 
 End Proofs.
